@@ -152,6 +152,56 @@ fn check_many(c: &ManyCase) -> CaseResult {
     Ok(Meta::new(adj && nonadj).label(c.n > 65_536, "distinct-contents>65536").label(c.reopen, "rewritten-after-reopen").label(leaves, "leaf-spill").label(nonadj, "non-adjacent-repetition"))
 }
 
+
+/// More than 2^16 ids share one in-memory content; then all but a few are removed or overwritten.
+#[derive(Clone, Debug, Serialize, Deserialize)]
+pub struct SharersCase {
+    pub n: u32,
+    pub keep: u32,
+    pub asyncw: bool,
+}
+
+fn check_sharers(c: &SharersCase) -> CaseResult {
+    let mut a = if c.asyncw { crate::libx::Arch::new_async() } else { crate::libx::Arch::new_sync() };
+    let shared = b"shared content".to_vec();
+    let mut model: BTreeMap<u64, Vec<u8>> = BTreeMap::new();
+    for i in 0..u64::from(c.n) {
+        guarded("add_tile", || a.add(100 + 2 * i, shared.clone()))?.map_err(|e| Fail::new("C10/harness", format!("add_tile: {e}")))?;
+        model.insert(100 + 2 * i, shared.clone());
+    }
+    // remove (even i) or overwrite (odd i) all but the last `keep`
+    for i in 0..u64::from(c.n - c.keep) {
+        let id = 100 + 2 * i;
+        if i % 2 == 0 {
+            a.remove(id);
+            model.remove(&id);
+        } else {
+            let other = (i as u32).to_le_bytes().to_vec();
+            guarded("add_tile", || a.add(id, other.clone()))?.map_err(|e| Fail::new("C10/harness", format!("add_tile: {e}")))?;
+            model.insert(id, other);
+        }
+    }
+    let (ids, stored, refsets, refs) = a.store_counts();
+    let distinct: BTreeSet<&Vec<u8>> = model.values().collect();
+    ensure!(
+        (ids, stored, refsets, refs) == (model.len(), distinct.len(), distinct.len(), model.len()),
+        "C10/retention/counts-differ",
+        "after {} sharers and {} removals / overwrites the builder holds (ids, contents, reference sets, references) = {:?}, the model implies {:?}",
+        c.n,
+        c.n - c.keep,
+        (ids, stored, refsets, refs),
+        (model.len(), distinct.len(), distinct.len(), model.len())
+    );
+    for i in (u64::from(c.n - c.keep)..u64::from(c.n)).take(5) {
+        let id = 100 + 2 * i;
+        let g = guarded("get_tile_by_id", || a.get(id))?.map_err(|e| Fail::new("C10/get-err", format!("{e}")))?;
+        ensure!(g.as_deref() == Some(&shared[..]), "C10/retention/content-dropped", "tile {id} still refers to the shared content but the lookup returns {:?}", g.map(|v| v.len()));
+    }
+    let bytes = guarded("to_writer", || a.write())?.map_err(|e| Fail::new("C10/write-err", format!("{e}")))?;
+    check_written(&bytes, &model, "C10")?;
+    Ok(Meta::new(true).label(c.n > 65_535, "sharers>65535").label(true, "retention-shared-content").label(true, "retention-remove").label(true, "retention-replace"))
+}
+
 fn check_dup(c: &DupCase) -> CaseResult {
     let h = History { init: c.init.clone(), ids: vec![0], pool: c.pool.clone(), internal: c.internal, ops: vec![] };
     let mut r = history::start(&h, "C10")?;
@@ -340,6 +390,9 @@ pub fn run(ctx: &Ctx) {
     // more than 2^16 distinct contents (whatever indexes contents by a 16-bit quantity or caps its table)
     let many: Vec<ManyCase> = ctx.tier.pick(vec![65_537u32, 66_001], vec![65_536, 65_537, 66_001, 140_000, 300_000]).iter().enumerate().map(|(k, n)| ManyCase { n: *n, internal: 1 + (k % 4) as u8, asyncw: k % 2 == 1, reopen: k % 2 == 0 }).collect();
     crate::engine::run_list(ctx, "more-than-65536-distinct-contents", &many, check_many);
+    // one content shared by more than 2^16 ids, most of them removed or overwritten again
+    let sharers: Vec<SharersCase> = ctx.tier.pick(vec![(65_540u32, 3u32), (66_000, 300)], vec![(65_535, 1), (65_536, 1), (65_540, 3), (66_000, 300), (140_000, 70_000)]).iter().enumerate().map(|(k, (n, keep))| SharersCase { n: *n, keep: *keep, asyncw: k % 2 == 1 }).collect();
+    crate::engine::run_list(ctx, "more-than-65535-sharers-of-one-content", &sharers, check_sharers);
     let (mo, mi) = ctx.tier.pick((50, 40), (200, 300));
     run_proptest(ctx, "retention-histories", PtCfg::new(ctx.lanes, ctx.tier.pick(1000, 8000)), || history::history(mo, mi, 60), check_retention);
     for c in ["adjacent-repetition", "non-adjacent-repetition", "reader-backed-source", "foreign-undeduplicated-source", "mixture-memory-equals-backed", "written-on-another-thread", "retention-shared-content", "retention-remove", "retention-replace", "retention-reopen"] {
@@ -352,6 +405,7 @@ pub fn replay(sub: &str, case: &Value) -> Option<CaseResult> {
         "duplication-patterns" | "runs-beyond-65535" => Some(check_dup(&super::de(case)?)),
         "retention-histories" => Some(check_retention(&super::de(case)?)),
         "more-than-65536-distinct-contents" => Some(check_many(&super::de(case)?)),
+        "more-than-65535-sharers-of-one-content" => Some(check_sharers(&super::de(case)?)),
         _ => None,
     }
 }
